@@ -31,6 +31,8 @@ def check(run):
             elif i % 3 == 1:
                 tail += [{"op": "push", "from": 2, "to": 1}]
             tail += [{"op": "push", "from": 1, "to": 2}, {"op": "push", "from": 2, "to": 1}]   # both: identical listings
+            # and once more into fresh nodes, now that both have served snapshots and learnt entries only by merging
+            tail += [{"op": "push", "from": 1, "to": 8}, {"op": "push", "from": 2, "to": 7}]
             s["ops"] = s["ops"] + tail
         scns += a + b
         run.log("%s: %d exhaustive (all gossip lost), %d simulated (partial gossip, TLC-chosen pushes)" % (mp, len(a), len(b)))
@@ -45,7 +47,7 @@ def check(run):
         "distinct_nontrivial": nontriv,
         "rule": "scenario = TLC-generated pair of node histories (exhaustive 3 local ops with every broadcast lost; simulated depth 8 with "
                 "<=2 deliveries and <=2 TLC-chosen pushes), followed by a push into a fresh node, a one-directional push and an exchange "
-                "in both directions, probing every node after each step; non-trivial = the history contains a removal the peer has not seen",
+                "in both directions, and pushes of both nodes into further fresh nodes afterwards, probing every node after each step; non-trivial = the history contains a removal the peer has not seen",
         "scenarios": len(scns), "trace_spec_states": tstates, "rejections": len(rejected), "exhaustive": True,
         "samples": [scns[0]["ops"], scns[len(scns) // 2]["ops"], {"trace_excerpt": vlib.head_events(tpath, 5)}],
     }, ["a push is MergeRemoteState(peer.LocalState(false)) on the real states, as memberlist's push/pull does",
